@@ -21,7 +21,7 @@ ASSUMPTIONS = ['rounding bound B = 2 * sum_c (#configurations of the conditionin
                'cells are "zero probability" when the brute-force joint is exactly 0 (a -inf potential)']
 PLAN = {
     'quick': dict(cases=200, budget_s=75, case_timeout=300, min_cases=50),
-    'thorough': dict(cases=5000, budget_s=1800, case_timeout=600, min_cases=1000),
+    'thorough': dict(cases=5000, budget_s=600, case_timeout=600, min_cases=833),
 }
 TOTALS = [0.5, 1.0, 7.5, 1e3, 12345.6]
 ROWS = [None, None, 1, 10, 1000, 1000, 100000, 1000000]
